@@ -56,19 +56,54 @@ def _norm_fact(e: ast.AST) -> str:
     return norm(e)
 
 
+def alternatives(test: ast.AST, truth: bool) -> List[List[Tuple[str, bool]]]:
+    """the outcome `test is truth` in disjunctive normal form: a list of alternatives, each a list of (normalised text,
+    truth) atoms that all hold in it.  `not (a and b)` being true gives [[(a, False)], [(b, False)]]."""
+    if isinstance(test, ast.UnaryOp) and isinstance(test.op, ast.Not):
+        return alternatives(test.operand, not truth)
+    if isinstance(test, ast.BoolOp):
+        conj = (isinstance(test.op, ast.And) and truth) or (isinstance(test.op, ast.Or) and not truth)
+        parts = [alternatives(v, truth) for v in test.values]
+        if conj:
+            out: List[List[Tuple[str, bool]]] = [[]]
+            for ps in parts:
+                out = [a + b for a in out for b in ps][:64]
+            return out
+        return [alt for ps in parts for alt in ps][:64]
+    return [[(_norm_fact(e), t) for e, t in _atomise(test, truth)]]
+
+
 def facts_at(ctx, f: FunctionInfo, node: ast.AST) -> Set[Tuple[str, bool]]:
     """(normalised expression text, truth) facts that hold whenever ``node`` is evaluated"""
     cfg = cfg_of(f.node)
     from .effects import _short_circuit_facts
 
     out: Set[Tuple[str, bool]] = set()
-    raw = list(ctx.ef._dominating_tests(cfg, node)) + list(_short_circuit_facts(f.node, node))
-    for t, lab in raw:
-        for e, truth in _atomise(t, lab == "true"):
-            if isinstance(e, ast.Constant):
-                continue  # `while True:` and the like carry no information
-            out.add((_norm_fact(e), truth))
+    for e, truth in fact_nodes_at(ctx, f, node):
+        out.add((_norm_fact(e), truth))
     return out
+
+
+def _flag_definition(f: FunctionInfo, name: str, at_node: ast.AST) -> Optional[ast.AST]:
+    """the test a boolean flag stands for: ``name`` has exactly one reaching definition here, `name = <comparison / not / and /
+    or / predicate call>`, and nothing that expression reads is re-bound in the function after that definition"""
+    flow = flow_of(f.node)
+    n = flow.node_of(at_node)
+    if n is None or not flow.is_local(name):
+        return None
+    ds = list(flow.defs_reaching(n.id, name))
+    if len(ds) != 1 or ds[0].kind != "assign" or ds[0].value is None:
+        return None
+    v = ds[0].value
+    if not isinstance(v, (ast.Compare, ast.BoolOp, ast.UnaryOp)):
+        return None
+    reads = {x.id for x in ast.walk(v) if isinstance(x, ast.Name)}
+    for d in flow.all_defs:
+        if d.var in reads and d.kind != "param" and d.node is not None and d is not ds[0]:
+            # a re-binding of an operand that can happen after the flag was computed invalidates it
+            if flow.cfg.path_exists(ds[0].node, d.node, exceptional=False) and d.node != ds[0].node:
+                return None
+    return v
 
 
 def fact_nodes_at(ctx, f: FunctionInfo, node: ast.AST) -> List[Tuple[ast.AST, bool]]:
@@ -77,7 +112,15 @@ def fact_nodes_at(ctx, f: FunctionInfo, node: ast.AST) -> List[Tuple[ast.AST, bo
 
     out = []
     for t, lab in list(ctx.ef._dominating_tests(cfg, node)) + list(_short_circuit_facts(f.node, node)):
-        out += _atomise(t, lab == "true")
+        for e, truth in _atomise(t, lab == "true"):
+            if isinstance(e, ast.Constant):
+                continue  # `while True:` and the like carry no information
+            out.append((e, truth))
+            # a boolean flag stands for the test it was computed from
+            if isinstance(e, ast.Name):
+                d = _flag_definition(f, e.id, t)
+                if d is not None:
+                    out += [(e2, t2) for e2, t2 in _atomise(d, truth) if not isinstance(e2, ast.Constant)]
     return out
 
 
